@@ -657,14 +657,14 @@ pub fn mk_connack(rng: &mut Rng, ver: u64) -> Packet {
     let ok = rng.chance(5, 6);
     if ver == 4 {
         let rc = if ok { ConnectReturnCode::Accepted } else { ConnectReturnCode::NotAuthorized };
-        v3_1_1::Connack::builder().session_present(sp && ok).return_code(rc).build().unwrap().into()
+        v3_1_1::Connack::builder().session_present(sp && (ok || rng.chance(1, 3))).return_code(rc).build().unwrap().into()
     } else {
         let rc = if ok { ConnectReasonCode::Success } else { ConnectReasonCode::NotAuthorized };
         let mut props = props_connect(rng);
         if rng.chance(1, 3) {
             props.push(mqtt::packet::ServerKeepAlive::new(*rng.pick(&[0u16, 5, 30])).unwrap().into());
         }
-        v5_0::Connack::builder().session_present(sp && ok).reason_code(rc).props(props).build().unwrap().into()
+        v5_0::Connack::builder().session_present(sp && (ok || rng.chance(1, 3))).reason_code(rc).props(props).build().unwrap().into()
     }
 }
 
